@@ -6,6 +6,7 @@
             S ub energy f_1..f_nd ; H nold nnew {it W c_1..c_nd}* ; O {it W c..}* ; G {nx lower upper}* [; E v* ; D v*] *)
 open Model
 open X_fops
+let rec nat_of_int (n : int) : nat = if n <= 0 then O else S (nat_of_int (n - 1))
 
 let rec all_indices (nx : int list) : int list list =
   match nx with
